@@ -328,6 +328,7 @@ def earliest(gens_parsed, path):
 #   a/b, /a, a/*.x   a separator at the beginning or in the middle anchors the pattern at the traversal root
 #   **/x, a/**, a/**/b   '**' spans directory levels
 #   !PATTERN         re-includes; the LAST matching pattern decides
+#   \\c               the character c itself (\\[, \\*, a leading \\# or \\!)
 # Everything below an excluded directory is excluded as well (the walk never looks inside, so nothing below can be re-included).
 
 DEFAULT_PATTERNS = [".DS_Store", "ascmhl", "ascmhl/"]
@@ -338,6 +339,10 @@ def _segment_regex(seg):
     out, i = "", 0
     while i < len(seg):
         ch = seg[i]
+        if ch == "\\" and i + 1 < len(seg):   # a backslash takes the next character literally
+            out += re.escape(seg[i + 1])
+            i += 2
+            continue
         if ch == "*":
             out += "[^/]*"
         elif ch == "?":
